@@ -54,19 +54,20 @@ func drawActor(c *Ctx, lane string) *world.Actor {
 type ActorSpec struct {
 	Mode, Piece     int
 	UsePeek, RetErr bool
+	UseByte         bool
 	Seed            uint64
 }
 
 func drawActorSpec(l *core.Lane) ActorSpec {
-	return ActorSpec{Mode: l.Intn(5), Piece: l.Intn(5), UsePeek: l.Bool(), RetErr: l.Chance(1, 6), Seed: l.U64()}
+	return ActorSpec{Mode: l.Intn(5), Piece: l.Intn(5), UsePeek: l.Bool(), RetErr: l.Chance(1, 6), Seed: l.U64(), UseByte: l.Chance(1, 4)}
 }
 
 func (s ActorSpec) New(dev *world.Device, name string) *world.Actor {
-	return &world.Actor{Name: name, Dev: dev, R: core.NewSplitMix(s.Seed), Mode: s.Mode, Piece: s.Piece, UsePeek: s.UsePeek, RetErr: s.RetErr}
+	return &world.Actor{Name: name, Dev: dev, R: core.NewSplitMix(s.Seed), Mode: s.Mode, Piece: s.Piece, UsePeek: s.UsePeek, RetErr: s.RetErr, UseByte: s.UseByte}
 }
 
 func (s ActorSpec) String() string {
-	return fmt.Sprintf("{mode=%d piece=%d peek=%v reterr=%v}", s.Mode, s.Piece, s.UsePeek, s.RetErr)
+	return fmt.Sprintf("{mode=%d piece=%d peek=%v byte=%v reterr=%v}", s.Mode, s.Piece, s.UsePeek, s.UseByte, s.RetErr)
 }
 
 // L returns a lane.
